@@ -1135,6 +1135,113 @@ theorem br_eq_cssBr (t : Tok) (h : plainTok t = true) : t.br = t.cssBr := by
     obtain ⟨⟨⟨⟨⟨h1, h2⟩, h3⟩, h4⟩, h5⟩, h6⟩ := h'
     by_cases hf : t.typ = .function <;> simp [h1, h2, h3, h4, h5, h6, hf, hc]
 
+/-! ## the fuel of `mediaRule` is never the reason for a result -/
+
+theorem parseLoop_cons' {σ : Type} (step : σ → Tok → List Tok → σ × List Tok) (s : σ) (t : Tok)
+    (ts : List Tok) :
+    parseLoop step s (t :: ts) =
+      if (step s t ts).2.length ≤ ts.length then parseLoop step (step s t ts).1 (step s t ts).2
+      else (step s t ts).1 := by
+  rw [parseLoop]
+  split <;> rfl
+
+/-- two step functions that agree whenever fewer than `k` tokens are left give the same loop on lists of
+at most `k` tokens -/
+theorem parseLoop_congr {σ : Type} (step₁ step₂ : σ → Tok → List Tok → σ × List Tok) (k : Nat)
+    (h : ∀ s t rest, rest.length < k → step₁ s t rest = step₂ s t rest) (ts : List Tok) (s : σ)
+    (hk : ts.length ≤ k) : parseLoop step₁ s ts = parseLoop step₂ s ts := by
+  generalize hn : ts.length = n
+  induction n using Nat.strongRecOn generalizing ts s with
+  | _ n ih =>
+    cases ts with
+    | nil => simp [parseLoop_nil]
+    | cons t ts =>
+      simp only [List.length_cons] at hk hn
+      rw [parseLoop_cons', parseLoop_cons', h s t ts (by omega)]
+      split
+      · next hle => exact ih _ (by omega) _ _ (by omega) rfl
+      · rfl
+
+theorem mediaStep_congr (O : Oracle) (ns : List (Cps × Cps)) (n₁ n₂ : List Tok → Option Rule) (k : Nat)
+    (h : ∀ l, l.length ≤ k → n₁ l = n₂ l) (acc : List Rule) (t : Tok) (rest : List Tok)
+    (hr : rest.length < k) : mediaStep O ns n₁ acc t rest = mediaStep O ns n₂ acc t rest := by
+  have hl : (upto .default (some t) rest).1.length ≤ k := by
+    have := upto_taken_le .default (some t) rest; omega
+  unfold mediaStep
+  split <;> try rfl
+  simp only [mediaStmtEffect]
+  rw [h _ hl]
+
+theorem sepEnd_fst_le (l : List Tok) : (sepEnd l).1.length ≤ l.length := by
+  simp [sepEnd]
+
+theorem mediaBlock_congr (O : Oracle) (ns : List (Cps × Cps)) (n₁ n₂ : List Tok → Option Rule)
+    (rest2 : List Tok) (h : ∀ l, l.length ≤ rest2.length → n₁ l = n₂ l) :
+    mediaBlock O ns n₁ rest2 = mediaBlock O ns n₂ rest2 := by
+  unfold mediaBlock
+  dsimp only
+  split
+  · rfl
+  · next last hlast =>
+    split
+    · rfl
+    · have b3 : (upto .mediaend none rest2).1.length ≤ rest2.length := by
+        unfold upto; exact uptoLoop_taken_le _ _ _
+      have b4 := sepEnd_fst_le (upto .mediaend none rest2).1
+      apply parseLoop_congr _ _ rest2.length _ _ []
+      · split <;> omega
+      · intro acc t rest hr
+        exact mediaStep_congr O ns n₁ n₂ rest2.length h acc t rest hr
+
+theorem mediaHead_rest_le (c : Prop) [Decidable c] (rest0 : List Tok) :
+    (if c then upto Mode.blockstart none (upto Mode.mq none rest0).2
+      else ([], (upto Mode.mq none rest0).2)).2.length ≤ rest0.length := by
+  have b1 := upto_rest_le .mq none rest0
+  split
+  · have := upto_rest_le .blockstart none (upto Mode.mq none rest0).2; omega
+  · simpa using b1
+
+/-- **noFuel**: any two amounts of fuel above the number of tokens give the same rule; in particular the
+`none` (out of fuel) result of a nested call is never what makes a nested `@media` disappear -/
+theorem mediaRule_fuel (O : Oracle) (ns : List (Cps × Cps)) (f₁ f₂ : Nat) (ts : List Tok)
+    (h1 : ts.length < f₁) (h2 : ts.length < f₂) : mediaRule O ns f₁ ts = mediaRule O ns f₂ ts := by
+  induction f₁ generalizing f₂ ts with
+  | zero => omega
+  | succ n ih =>
+    cases f₂ with
+    | zero => omega
+    | succ m =>
+      cases ts with
+      | nil => simp [mediaRule]
+      | cons at_ rest0 =>
+        simp only [List.length_cons] at h1 h2
+        have key : ∀ (c : Prop) [Decidable c],
+            mediaBlock O ns (fun l => mediaRule O ns n l)
+              (if c then upto Mode.blockstart none (upto Mode.mq none rest0).2
+                else ([], (upto Mode.mq none rest0).2)).2 =
+            mediaBlock O ns (fun l => mediaRule O ns m l)
+              (if c then upto Mode.blockstart none (upto Mode.mq none rest0).2
+                else ([], (upto Mode.mq none rest0).2)).2 := by
+          intro c _
+          apply mediaBlock_congr
+          intro l hl
+          have := mediaHead_rest_le c rest0
+          exact ih m l (by omega) (by omega)
+        simp only [mediaRule, key]
+
+/-- a top-level call always has enough fuel: `stmtEffect` passes `stmt.length + 1` -/
+theorem mediaRule_noFuel (O : Oracle) (ns : List (Cps × Cps)) (f : Nat) (ts : List Tok)
+    (h : ts.length < f) : mediaRule O ns f ts ≠ none := by
+  cases f with
+  | zero => omega
+  | succ n =>
+    have : ∃ r, mediaRule O ns (n + 1) ts = some r := by
+      simp only [mediaRule]
+      repeat' split
+      all_goals exact ⟨_, rfl⟩
+    obtain ⟨r, hr⟩ := this
+    simp [hr]
+
 /-! ## example tokens (for the non-vacuity examples of the property file) -/
 namespace Ex
 def ch (c : Nat) (p : Nat := 0) : Tok := ⟨.char, [c], p⟩
